@@ -2,9 +2,8 @@
    release / allocate / client writes of a disciplined client.
 
    A state is described by the trunk chain [ts] (head first; each trunk = its page number and
-   its entries, top of stack first) and the list [L] of trunk pages that the chain has already
-   moved past (leaked: still "free" for the client, never handed out again).  The client's bag
-   of free pages is exactly  pages of the chain + their entries + L,  without repetition. *)
+   its entries, top of stack first).  The client's bag of free pages is exactly
+   pages of the chain + their entries,  without repetition, and free_count is its size. *)
 From Coq Require Import ZArith List Bool Lia ZifyBool FMapPositive Permutation.
 From TV Require Import Lib.MachInt Gen.FreelistConsts Gen.Freelist Model.Freelist Proof.Freelist.
 Import ListNotations.
@@ -39,7 +38,6 @@ Fixpoint chain (m : memT) (h : Z) (ts : list trunk) : Prop :=
 
 Fixpoint flat (ts : list trunk) : list Z :=
   match ts with [] => [] | (t, s) :: rest => t :: s ++ flat rest end.
-Definition all (ts : list trunk) (L : list Z) : list Z := flat ts ++ L.
 Fixpoint etot (ts : list trunk) : Z :=
   match ts with [] => 0 | (_, s) :: rest => zlen s + etot rest end.
 
@@ -178,80 +176,75 @@ Proof.
 Qed.
 
 (* ------------------------------------------------------------------ the invariant *)
-Record Core (np : Z) (st : state) (b : bagT) (nf a4 a5 : Z) (ts : list trunk) (L : list Z) : Prop := mkCore {
+Record Core (np : Z) (st : state) (b : bagT) (nf : Z) (ts : list trunk) : Prop := mkCore {
   c_chain : chain (mem st) (head st) ts;
-  c_set : SetOK np b nf (all ts L);
-  c_fc : zlen (flat ts) <= fc st <= zlen (flat ts) + zlen L;
-  c_z4 : mget (mem st) 0 W_NEXT = a4;
-  c_z5 : mget (mem st) 0 W_COUNT = a5 }.
+  c_set : SetOK np b nf (flat ts);
+  c_fc : fc st = zlen (flat ts) }.
 
-Lemma core_new : forall np, Core np st_new (PositiveMap.empty unit) 0 0 0 [] [].
+Lemma core_new : forall np, Core np st_new (PositiveMap.empty unit) 0 [].
 Proof.
   intro np. constructor; cbn.
   - reflexivity.
   - repeat split; try constructor; try contradiction.
     intro H. rewrite bmem_empty in H. discriminate.
-  - lia.
-  - unfold mget. rewrite PositiveMap.gempty. reflexivity.
-  - unfold mget. rewrite PositiveMap.gempty. reflexivity.
+  - reflexivity.
 Qed.
 
-Lemma core_rng : forall np st b nf a4 a5 ts L x, Core np st b nf a4 a5 ts L -> In x (all ts L) -> 1 <= x < np.
-Proof. intros. destruct H as [_ (_ & _ & Hr & _) _ _ _]. auto. Qed.
+Lemma core_rng : forall np st b nf ts x, Core np st b nf ts -> In x (flat ts) -> 1 <= x < np.
+Proof. intros. destruct H as [_ (_ & _ & Hr & _) _]. auto. Qed.
 
-Lemma core_head_nil : forall np st b nf a4 a5 ts L, Core np st b nf a4 a5 ts L -> head st = 0 -> ts = [].
+Lemma core_fc_nf : forall np st b nf ts, Core np st b nf ts -> fc st = nf.
+Proof. intros np st b nf ts [_ (_ & _ & _ & Hnf) Hfc]. congruence. Qed.
+
+Lemma core_head_nil : forall np st b nf ts, Core np st b nf ts -> head st = 0 -> ts = [].
 Proof.
-  intros np st b nf a4 a5 ts L H Hh. destruct ts as [|[t s] rest]; [reflexivity|].
-  pose proof (core_rng _ _ _ _ _ _ _ _ t H) as Hr. destruct H as [Hc _ _ _ _].
-  cbn [chain] in Hc. destruct Hc as (Ht & _).
-  assert (1 <= t < np) by (apply Hr; left; reflexivity). lia.
+  intros np st b nf ts H Hh. destruct ts as [|[t s] rest]; [reflexivity|].
+  pose proof (core_rng _ _ _ _ _ t H (or_introl eq_refl)) as Hr. destruct H as [Hc _ _].
+  cbn [chain] in Hc. destruct Hc as (Ht & _). lia.
 Qed.
 
-Lemma core_fuel : forall np st b nf a4 a5 ts L, Core np st b nf a4 a5 ts L -> (length ts <= fuel_for np)%nat.
+Lemma setok_rest_pages : forall np b nf h s rest,
+  SetOK np b nf (flat ((h, s) :: rest)) -> forall t, In t (map fst rest) -> 0 <= t /\ t <> h.
 Proof.
-  intros np st b nf a4 a5 ts L [_ (Hnd & _ & Hr & _) _ _ _].
-  pose proof (nodup_range_length np _ Hnd Hr) as Hl. unfold fuel_for.
-  assert (Z.of_nat (length ts) <= Z.of_nat (length (all ts L))); [|lia].
-  fold (zlen ts). fold (zlen (all ts L)). unfold all. rewrite zlen_app, zlen_flat.
-  pose proof (etot_nonneg ts). pose proof (zlen_nonneg _ L). lia.
+  intros np b nf h s rest (Hnd & _ & Hr & _) t Ht. apply pages_in_flat in Ht.
+  assert (Hin2 : In t (flat ((h, s) :: rest))).
+  { cbn [flat]. right. apply in_or_app. right. exact Ht. }
+  specialize (Hr t Hin2). split; [lia|]. intros ->.
+  cbn [flat] in Hnd. inversion Hnd as [|? ? Hni _]; subst.
+  apply Hni. apply in_or_app. right. exact Ht.
 Qed.
 
 (* ------------------------------------------------------------------ release *)
-Lemma release_core : forall np st b nf a4 a5 ts L p,
+Lemma release_core : forall np st b nf ts p,
   np < 2 ^ 32 ->
-  Core np st b nf a4 a5 ts L -> 1 <= p < np -> bmem p b = false ->
-  exists st', release np st p = (st', OOk) /\
-    exists ts' L', Core np st' (badd p b) (nf + 1) a4 a5 ts' L'.
+  Core np st b nf ts -> 1 <= p < np -> bmem p b = false ->
+  exists st', release np st p = (st', OOk) /\ exists ts', Core np st' (badd p b) (nf + 1) ts'.
 Proof.
-  intros np st b nf a4 a5 ts L p Hnp HC Hp Hpb.
-  assert (Hnotin : ~ In p (all ts L)).
-  { destruct HC as [_ (_ & Hbag & _) _ _ _]. intro Hin. apply Hbag in Hin. congruence. }
+  intros np st b nf ts p Hnp HC Hp Hpb.
+  assert (Hnotin : ~ In p (flat ts)).
+  { destruct HC as [_ (_ & Hbag & _) _]. intro Hin. apply Hbag in Hin. congruence. }
   assert (Hfcb : fc st + 1 < 2 ^ 32).
-  { destruct HC as [_ (Hnd & _ & Hr & _) Hfc _ _].
-    pose proof (nodup_range_length np _ Hnd Hr) as Hl.
-    unfold all in Hl. rewrite app_length in Hl. unfold zlen in Hfc. lia. }
+  { destruct HC as [_ (Hnd & _ & Hr & _) Hfc].
+    pose proof (nodup_range_length np _ Hnd Hr) as Hl. unfold zlen in Hfc. lia. }
   unfold release.
   destruct (Z.eqb_spec (head st) 0) as [Hh|Hh].
   - (* initialize_trunk *)
-    pose proof (core_head_nil _ _ _ _ _ _ _ _ HC Hh) as ->.
+    pose proof (core_head_nil _ _ _ _ _ HC Hh) as ->.
     assert (Hin : in_store np p = true) by (unfold in_store; lia).
     rewrite Hin. cbn [negb]. eexists. split; [reflexivity|].
-    exists [(p, [])], L. destruct HC as [Hc Hs Hfc H4 H5]. constructor; cbn [mem head fc].
+    exists [(p, [])]. destruct HC as [Hc Hs Hfc]. constructor; cbn [mem head fc].
     + apply chain_cons_intro.
       * reflexivity.
       * apply mget_mset_same.
       * geom. cbn. lia.
       * exact I.
       * rewrite mget_mset_other by (geom; lia). rewrite mget_mset_same. reflexivity.
-    + cbn [all flat app]. apply setok_add; assumption.
-    + cbn [flat app]. rewrite zlen_cons, zlen_nil. pose proof (zlen_nonneg _ L). lia.
-    + rewrite !mget_mset_other by (geom; lia). exact H4.
-    + rewrite !mget_mset_other by (geom; lia). exact H5.
+    + cbn [flat app]. apply setok_add; assumption.
+    + reflexivity.
   - destruct ts as [|[h s] rest].
-    { destruct HC as [Hc _ _ _ _]. cbn [chain] in Hc. contradiction. }
-    pose proof (core_rng _ _ _ _ _ _ _ _ h HC) as Hhr.
-    assert (Hh1 : 1 <= h < np) by (apply Hhr; left; reflexivity).
-    destruct HC as [Hc Hs Hfc H4 H5]. cbn [chain] in Hc. destruct Hc as (Hhd & Hcnt & Hle & He & Hnx).
+    { destruct HC as [Hc _ _]. cbn [chain] in Hc. contradiction. }
+    pose proof (core_rng _ _ _ _ _ h HC (or_introl eq_refl)) as Hh1.
+    destruct HC as [Hc Hs Hfc]. cbn [chain] in Hc. destruct Hc as (Hhd & Hcnt & Hle & He & Hnx).
     rewrite Hhd in *.
     assert (Hin : in_store np h = true) by (unfold in_store; lia). rewrite Hin. cbn [negb].
     assert (Hinp : in_store np p = true) by (unfold in_store; lia).
@@ -259,13 +252,13 @@ Proof.
     cbv zeta. rewrite Hcnt. geom. pose proof (zlen_nonneg _ s) as Hs0.
     assert (Hpages : forall t, In t (map fst ((h, s) :: rest)) -> 0 <= t /\ t <> p).
     { intros t Ht. apply pages_in_flat in Ht.
-      assert (In t (all ((h, s) :: rest) L)) by (unfold all; apply in_or_app; left; exact Ht).
-      destruct Hs as (_ & _ & Hr & _). specialize (Hr t H). split; [lia|].
-      intros ->. apply Hnotin. exact H. }
+      destruct Hs as (_ & _ & Hr & _). specialize (Hr t Ht). split; [lia|].
+      intros ->. apply Hnotin. exact Ht. }
+    pose proof (setok_rest_pages _ _ _ _ _ _ Hs) as Hrest.
     destruct (Z.geb_spec (zlen s) 4090) as [Hfull|Hnf].
     + (* create_new_trunk *)
       rewrite Hinp, Hfo. cbn [negb]. eexists. split; [reflexivity|].
-      exists ((p, []) :: (h, s) :: rest), L. constructor; cbn [mem head fc].
+      exists ((p, []) :: (h, s) :: rest). constructor; cbn [mem head fc].
       * apply chain_cons_intro.
         -- reflexivity.
         -- apply mget_mset_same.
@@ -275,23 +268,14 @@ Proof.
            apply chain_frame_mset; [exact Hpages|lia|geom; lia|].
            apply chain_frame_mset; [exact Hpages|lia|geom; lia|].
            apply chain_cons_intro; geom; auto.
-      * change (all ((p, []) :: (h, s) :: rest) L) with (p :: all ((h, s) :: rest) L).
+      * change (flat ((p, []) :: (h, s) :: rest)) with (p :: flat ((h, s) :: rest)).
         apply setok_add; assumption.
       * change (flat ((p, []) :: (h, s) :: rest)) with (p :: flat ((h, s) :: rest)).
         rewrite zlen_cons. lia.
-      * rewrite !mget_mset_other by (geom; lia). exact H4.
-      * rewrite !mget_mset_other by (geom; lia). exact H5.
     + (* push onto the head trunk *)
       destruct (Z.gtb_spec (16 + 8 + zlen s * 4 + 4) 16384) as [Hbad|_]; [lia|].
       rewrite Hfo. eexists. split; [reflexivity|].
-      exists ((h, p :: s) :: rest), L.
-      assert (Hrest : forall t, In t (map fst rest) -> 0 <= t /\ t <> h).
-      { intros t Ht. apply pages_in_flat in Ht. destruct Hs as (Hnd & _ & Hr & _).
-        assert (Hin2 : In t (all ((h, s) :: rest) L)).
-        { unfold all. cbn [flat]. right. apply in_or_app. left. apply in_or_app. right. exact Ht. }
-        specialize (Hr t Hin2). split; [lia|]. intros ->.
-        unfold all in Hnd. cbn [flat app] in Hnd. inversion Hnd as [|? ? Hni _]; subst.
-        apply Hni. apply in_or_app. left. apply in_or_app. right. exact Ht. }
+      exists ((h, p :: s) :: rest).
       constructor; cbn [mem head fc].
       * apply chain_cons_intro.
         -- reflexivity.
@@ -305,162 +289,80 @@ Proof.
            apply chain_frame_mset; [exact Hrest|lia|geom; lia|].
            apply chain_frame_mset; [exact Hrest|lia|geom; lia|]. exact Hnx.
       * eapply setok_perm; [|apply setok_add; [exact Hs|exact Hp|exact Hpb]].
-        unfold all. cbn [flat app]. apply perm_swap.
+        exact (perm_swap h p (s ++ flat rest)).
       * cbn [flat] in *. rewrite !zlen_cons in *. rewrite zlen_app in *. rewrite zlen_cons. lia.
-      * rewrite !mget_mset_other by (geom; lia). exact H4.
-      * rewrite !mget_mset_other by (geom; lia). exact H5.
 Qed.
 
 (* ------------------------------------------------------------------ allocate *)
-Lemma chain_zero_nil : forall m rest, chain m 0 rest -> (forall x, In x (flat rest) -> 1 <= x) -> rest = [].
-Proof.
-  intros m [|[t s] rest] Hc Hr; [reflexivity|].
-  cbn [chain] in Hc. destruct Hc as (Ht & _). specialize (Hr t (or_introl eq_refl)). lia.
-Qed.
+Definition alloc_post (np : Z) (b : bagT) (nf : Z) (st st' : state) (r : out) : Prop :=
+  (r = ONone /\ nf = 0 /\ st' = st)
+  \/ (exists x, r = OSome x /\ bmem x b = true /\ exists ts', Core np st' (bdel x b) (nf - 1) ts').
 
-Lemma setok_rest_pages : forall np b nf h s rest L,
-  SetOK np b nf (all ((h, s) :: rest) L) -> forall t, In t (map fst rest) -> 0 <= t /\ t <> h.
+Lemma alloc_core : forall np ts st b nf,
+  Core np st b nf ts -> exists st' r, alloc np st = (st', r) /\ alloc_post np b nf st st' r.
 Proof.
-  intros np b nf h s rest L (Hnd & _ & Hr & _) t Ht. apply pages_in_flat in Ht.
-  assert (Hin2 : In t (all ((h, s) :: rest) L)).
-  { unfold all. cbn [flat]. right. apply in_or_app. left. apply in_or_app. right. exact Ht. }
-  specialize (Hr t Hin2). split; [lia|]. intros ->.
-  unfold all in Hnd. cbn [flat app] in Hnd. inversion Hnd as [|? ? Hni _]; subst.
-  apply Hni. apply in_or_app. left. apply in_or_app. right. exact Ht.
-Qed.
-
-Definition alloc_post (np : Z) (b : bagT) (nf a4 a5 : Z) (ts : list trunk) (st' : state) (r : out) : Prop :=
-  (r = ONone /\ etot ts = 0 /\ fc st' = 0 /\ exists L', Core np st' b nf a4 a5 [] L')
-  \/ (exists x, r = OSome x /\ bmem x b = true /\
-        exists ts' L', Core np st' (bdel x b) (nf - 1) a4 a5 ts' L' /\ etot ts' = etot ts - 1).
-
-Lemma alloc_core : forall np ts L st b nf a4 a5 fuel,
-  Core np st b nf a4 a5 ts L -> (length ts <= fuel)%nat ->
-  ((a4 = 0 /\ a5 = 0) \/ head st <> 0 \/ fc st = 0) ->
-  exists st' r, alloc np fuel st = (st', r) /\ alloc_post np b nf a4 a5 ts st' r.
-Proof.
-  intros np ts. induction ts as [|[h s] rest IH]; intros L st b nf a4 a5 fuel HC Hfuel Hnb.
-  - (* no trunk at all: head_page = 0 *)
-    pose proof HC as [Hc Hs Hfc H4 H5]. cbn [chain] in Hc. cbn [flat] in Hfc. rewrite zlen_nil in Hfc.
-    rewrite alloc_eq. cbv zeta. destruct (Z.eqb_spec (fc st) 0) as [Hz|Hz].
-    + eexists _, _. split; [reflexivity|]. left. repeat split; try assumption. exists L. exact HC.
-    + (* free_count > 0: the code reads page 0 as a trunk *)
-      destruct Hnb as [[-> ->]|[Hnb|Hnb]]; [|contradiction|contradiction].
-      assert (Hnp : 1 < np).
-      { destruct L as [|x L]; [rewrite zlen_nil in Hfc; lia|].
-        destruct Hs as (_ & _ & Hr & _). specialize (Hr x (or_introl eq_refl)). lia. }
-      rewrite Hc. assert (Hin : in_store np 0 = true) by (unfold in_store; lia).
-      rewrite Hin, H4, H5. cbn [negb]. rewrite Z.eqb_refl.
-      eexists _, _. split; [reflexivity|]. left. repeat split; try reflexivity.
-      exists L. constructor; cbn [mem head fc]; try assumption.
-      * reflexivity.
-      * cbn [flat]. rewrite zlen_nil. pose proof (zlen_nonneg _ L). lia.
-  - pose proof (core_rng _ _ _ _ _ _ _ _ h HC (or_introl eq_refl)) as Hh1.
-    pose proof HC as [Hc Hs Hfc H4 H5]. cbn [chain] in Hc. destruct Hc as (Hhd & Hcnt & Hle & He & Hnx).
-    pose proof (setok_rest_pages _ _ _ _ _ _ _ Hs) as Hrest.
-    pose proof (zlen_nonneg _ (flat rest)) as Hfr0. pose proof (zlen_nonneg _ L) as HL0.
-    rewrite alloc_eq. cbv zeta. rewrite Hhd.
+  intros np ts st b nf HC. unfold alloc. cbv zeta.
+  destruct ts as [|[h s] rest].
+  - (* no trunk: head_page = 0, free_count = 0 *)
+    destruct HC as [Hc (_ & _ & _ & Hnf) Hfc]. cbn [chain] in Hc. rewrite Hc, Z.eqb_refl, orb_true_r.
+    eexists _, _. split; [reflexivity|]. left. repeat split. subst nf. reflexivity.
+  - pose proof (core_rng _ _ _ _ _ h HC (or_introl eq_refl)) as Hh1.
+    pose proof HC as [Hc Hs Hfc]. cbn [chain] in Hc. destruct Hc as (Hhd & Hcnt & Hle & He & Hnx).
+    pose proof (setok_rest_pages _ _ _ _ _ _ Hs) as Hrest.
+    rewrite Hhd.
     assert (Hin : in_store np h = true) by (unfold in_store; lia).
-    cbn [flat] in Hfc. rewrite zlen_cons, zlen_app in Hfc. pose proof (zlen_nonneg _ s) as Hs0.
+    cbn [flat] in Hfc. rewrite zlen_cons, zlen_app in Hfc.
+    pose proof (zlen_nonneg _ s) as Hs0. pose proof (zlen_nonneg _ (flat rest)) as Hfr0.
     destruct (Z.eqb_spec (fc st) 0) as [Hz|Hz]; [lia|].
+    destruct (Z.eqb_spec h 0) as [Hz0|_]; [lia|]. cbn [orb].
     rewrite Hin, Hcnt. cbn [negb]. geom.
     destruct s as [|x s'].
-    + (* head trunk is empty *)
+    + (* head trunk is empty: hand out the trunk page itself *)
       rewrite zlen_nil in *. cbn [Z.eqb].
-      destruct (Z.eqb_spec (mget (mem st) h 4) 0) as [Hn|Hn].
-      * (* ... and last: the chain is dropped *)
-        rewrite Hn in Hnx. apply chain_zero_nil in Hnx.
-        2:{ intros y Hy. destruct Hs as (_ & _ & Hr & _). apply Hr. unfold all. cbn [flat app].
-            right. apply in_or_app. left. exact Hy. }
-        subst rest. eexists _, _. split; [reflexivity|]. left. repeat split; try reflexivity.
-        exists (h :: L). constructor; cbn [mem head fc]; try assumption.
-        -- reflexivity.
-        -- cbn [flat]. rewrite zlen_nil, zlen_cons. lia.
-      * (* ... and has a successor: move on (the empty trunk page is never handed out) *)
-        destruct rest as [|[n s2] rest'].
-        { cbn [chain] in Hnx. contradiction. }
-        destruct fuel as [|f]; [cbn [length] in Hfuel; lia|].
-        set (st1 := mkState (mem st) (mget (mem st) h 4) (fc st)).
-        assert (HC1 : Core np st1 b nf a4 a5 ((n, s2) :: rest') (h :: L)).
-        { constructor; subst st1; cbn [mem head fc]; try assumption.
-          - eapply setok_perm; [|exact Hs].
-            exact (Permutation_middle (flat ((n, s2) :: rest')) L h).
-          - rewrite zlen_cons. cbn [app] in Hfc. lia. }
-        destruct (IH (h :: L) st1 b nf a4 a5 f HC1) as (st' & r & Ha & Hpost).
-        { cbn [length] in *. lia. }
-        { right. left. subst st1. cbn [head]. exact Hn. }
-        exists st', r. split; [exact Ha|].
-        destruct Hpost as [(Hr & He0 & Hf0 & HL')|(y & Hr & Hy & ts' & L' & HC' & He')].
-        -- left. cbn [etot]. rewrite zlen_nil. repeat split; try assumption; cbn [etot] in He0; lia.
-        -- right. exists y. repeat split; try assumption. exists ts', L'. split; [exact HC'|].
-           cbn [etot] in *. rewrite zlen_nil. lia.
-    + (* pop the top entry of the head trunk *)
+      eexists _, _. split; [reflexivity|]. right. exists h.
+      destruct (setok_del np b nf (flat ((h, []) :: rest)) h (flat rest)) as (Hxb & Hxr & Hs').
+      { apply Permutation_refl. }
+      { exact Hs. }
+      split; [reflexivity|]. split; [exact Hxb|].
+      exists rest. constructor; cbn [mem head fc].
+      * exact Hnx.
+      * exact Hs'.
+      * lia.
+    + (* pop the top entry; an emptied trunk stays at the head *)
       rewrite zlen_cons in *. pose proof (zlen_nonneg _ s') as Hs'0.
       destruct (Z.eqb_spec (zlen s' + 1) 0) as [Hbad|_]; [lia|].
       destruct (Z.gtb_spec (16 + 8 + (zlen s' + 1 - 1) * 4 + 4) 16384) as [Hbad|_]; [lia|].
       replace (zlen s' + 1 - 1) with (zlen s') by lia.
       cbn [ents] in He. destruct He as [Hx He']. geom. rewrite Hx.
       eexists _, _. split; [reflexivity|]. right. exists x.
-      destruct (Z.eqb_spec (zlen s') 0) as [Hz'|Hz'].
-      * (* the trunk becomes empty: head moves to the next trunk, this trunk page leaks *)
-        apply zlen_zero in Hz'. subst s'.
-        destruct (setok_del np b nf (all ((h, [x]) :: rest) L) x (all rest (h :: L))) as (Hxb & Hxr & Hs').
-        { eapply perm_trans; [exact (perm_swap x h (flat rest ++ L))|].
-          apply perm_skip. exact (Permutation_middle (flat rest) L h). }
-        { exact Hs. }
-        split; [reflexivity|]. split; [exact Hxb|].
-        exists rest, (h :: L). split.
-        -- constructor; cbn [mem head fc].
-           ++ apply chain_frame_mset; [exact Hrest|lia|geom; lia|exact Hnx].
-           ++ exact Hs'.
-           ++ rewrite zlen_cons. rewrite zlen_nil in Hfc. lia.
-           ++ rewrite mget_mset_other by (geom; lia). exact H4.
-           ++ rewrite mget_mset_other by (geom; lia). exact H5.
-        -- cbn [etot]. rewrite zlen_cons, zlen_nil. lia.
-      * destruct (setok_del np b nf (all ((h, x :: s') :: rest) L) x (all ((h, s') :: rest) L)) as (Hxb & Hxr & Hs').
-        { exact (perm_swap x h ((s' ++ flat rest) ++ L)). }
-        { exact Hs. }
-        split; [reflexivity|]. split; [exact Hxb|].
-        exists ((h, s') :: rest), L. split.
-        -- constructor; cbn [mem head fc].
-           ++ apply chain_cons_intro.
-              ** reflexivity.
-              ** apply mget_mset_same.
-              ** geom. lia.
-              ** eapply ents_frame; [|exact He']. intros k Hk.
-                 rewrite mget_mset_other by (geom; lia). reflexivity.
-              ** rewrite mget_mset_other by (geom; lia).
-                 apply chain_frame_mset; [exact Hrest|lia|geom; lia|exact Hnx].
-           ++ exact Hs'.
-           ++ cbn [flat]. rewrite zlen_cons, zlen_app. lia.
-           ++ rewrite mget_mset_other by (geom; lia). exact H4.
-           ++ rewrite mget_mset_other by (geom; lia). exact H5.
-        -- cbn [etot]. rewrite zlen_cons. lia.
+      destruct (setok_del np b nf (flat ((h, x :: s') :: rest)) x (flat ((h, s') :: rest))) as (Hxb & Hxr & Hs').
+      { exact (perm_swap x h (s' ++ flat rest)). }
+      { exact Hs. }
+      split; [reflexivity|]. split; [exact Hxb|].
+      exists ((h, s') :: rest). constructor; cbn [mem head fc].
+      * apply chain_cons_intro.
+        -- reflexivity.
+        -- apply mget_mset_same.
+        -- geom. lia.
+        -- eapply ents_frame; [|exact He']. intros k Hk.
+           rewrite mget_mset_other by (geom; lia). reflexivity.
+        -- rewrite mget_mset_other by (geom; lia).
+           apply chain_frame_mset; [exact Hrest|lia|geom; lia|exact Hnx].
+      * exact Hs'.
+      * cbn [flat]. rewrite zlen_cons, zlen_app. lia.
 Qed.
 
 (* ------------------------------------------------------------------ the client's own writes *)
-Lemma poke_core : forall np st b nf a4 a5 ts L p i v,
-  Core np st b nf a4 a5 ts L -> 0 <= p < np -> 0 <= i < WORDS -> bmem p b = false ->
-  exists st', poke np st p i v = (st', OOk) /\
-    Core np st' b nf (if (p =? 0) && (i =? W_NEXT) then v else a4)
-                     (if (p =? 0) && (i =? W_COUNT) then v else a5) ts L /\
-    head st' = head st /\ fc st' = fc st.
+Lemma poke_core : forall np st b nf ts p i v,
+  Core np st b nf ts -> 0 <= p < np -> 0 <= i < WORDS -> bmem p b = false ->
+  exists st', poke np st p i v = (st', OOk) /\ Core np st' b nf ts.
 Proof.
-  intros np st b nf a4 a5 ts L p i v HC Hp Hi Hpb. unfold poke.
+  intros np st b nf ts p i v HC Hp Hi Hpb. unfold poke.
   assert (Hc : in_store np p && (0 <=? i) && (i <? WORDS) = true) by (unfold in_store; lia).
-  rewrite Hc. eexists. split; [reflexivity|]. split; [|split; reflexivity].
-  destruct HC as [Hch Hs Hfc H4 H5]. constructor; cbn [mem head fc]; try assumption.
-  - apply chain_frame_mset; [|lia|exact Hi|exact Hch].
-    intros t Ht. apply pages_in_flat in Ht.
-    assert (Hin : In t (all ts L)) by (unfold all; apply in_or_app; left; exact Ht).
-    destruct Hs as (_ & Hbag & Hr & _). specialize (Hr t Hin). split; [lia|].
-    intros ->. apply Hbag in Hin. congruence.
-  - destruct (Z.eqb_spec p 0) as [->|Hp0]; cbn [andb].
-    + destruct (Z.eqb_spec i W_NEXT) as [->|Hi4]; [apply mget_mset_same|].
-      rewrite mget_mset_other; [exact H4|lia|lia|exact Hi|geom; lia|right; exact Hi4].
-    + rewrite mget_mset_other; [exact H4|lia|lia|exact Hi|geom; lia|left; exact Hp0].
-  - destruct (Z.eqb_spec p 0) as [->|Hp0]; cbn [andb].
-    + destruct (Z.eqb_spec i W_COUNT) as [->|Hi5]; [apply mget_mset_same|].
-      rewrite mget_mset_other; [exact H5|lia|lia|exact Hi|geom; lia|right; exact Hi5].
-    + rewrite mget_mset_other; [exact H5|lia|lia|exact Hi|geom; lia|left; exact Hp0].
+  rewrite Hc. eexists. split; [reflexivity|].
+  destruct HC as [Hch Hs Hfc]. constructor; cbn [mem head fc]; try assumption.
+  apply chain_frame_mset; [|lia|exact Hi|exact Hch].
+  intros t Ht. apply pages_in_flat in Ht.
+  destruct Hs as (_ & Hbag & Hr & _). specialize (Hr t Ht). split; [lia|].
+  intros ->. apply Hbag in Ht. congruence.
 Qed.
